@@ -173,6 +173,16 @@ def python_advance(ctx: Ctx, py: PyProgram) -> None:
     ctx.instance("C13.1-2/python-advance", "fired marks + next-target writes in TimerScheduler.advance (2 timers)", n, 4)
 
 
+def _tick_flags(fn: Any) -> tuple[str, str]:
+    """The two locals tick_timers returns as (MTI fired, STI fired): the function's result tuple of two plain names (its last
+    expression), identified by position in the result, not by what the locals are called."""
+    last = fn.body["stmts"][-1]
+    e = last.get("e") if last.get("k") == "expr_stmt" else None
+    if isinstance(e, dict) and e.get("k") == "tuple" and len(e["elems"]) == 2 and all(x.get("k") == "path" for x in e["elems"]):
+        return e["elems"][0]["p"], e["elems"][1]["p"]
+    raise AnalysisError("tick_timers: the (mti, sti) result tuple of two locals was not found")
+
+
 def rust_tick(ctx: Ctx, rs: RustProgram) -> None:
     fn = rs.fn(TIMER_RS, "TimerContext::tick_timers")
     g = cfgmod.build_rs(fn.node, fn.qual)
@@ -182,7 +192,8 @@ def rust_tick(ctx: Ctx, rs: RustProgram) -> None:
     ctx.need(len(params) >= 3, "tick_timers: unexpected signature")
     cycle = params[2]
     n = 0
-    for timer, flag, nxt, per in (("MTI", "fired_mti", "self.next_mti", "self.mti_period"), ("STI", "fired_sti", "self.next_sti", "self.sti_period")):
+    flag_mti, flag_sti = _tick_flags(fn)
+    for timer, flag, nxt, per in (("MTI", flag_mti, "self.next_mti", "self.mti_period"), ("STI", flag_sti, "self.next_sti", "self.sti_period")):
         fired = [(a, a["ln"]) for a in walk(fn.body) if a.get("k") == "assign" and expr_text(a["l"]) == flag and expr_text(a["r"]) == "true"]
         writes = []
         for a in walk(fn.body):
@@ -207,7 +218,7 @@ def rust_tick(ctx: Ctx, rs: RustProgram) -> None:
         n += len(fired) + len(writes)
     ctx.instance("C13.1-2/rust-tick", "fired marks + next-target writes in TimerContext::tick_timers (2 timers, phase-preserving and re-base forms)", n, 6)
     # the returned tuple is the fired flags in (mti, sti) order
-    rets = [e for e in walk(fn.body) if e.get("k") == "tuple" and [expr_text(x) for x in e["elems"]] == ["fired_mti", "fired_sti"]]
+    rets = [e for e in walk(fn.body) if e.get("k") == "tuple" and [expr_text(x) for x in e["elems"]] == [flag_mti, flag_sti]]
     ctx.instance("C13.1/rust-return", "tick_timers returns (fired_mti, fired_sti)", len(rets), 1)
     # sibling operator agreement already enforced through _cmp_ge on both sides
 
@@ -219,17 +230,19 @@ def isr_bits(ctx: Ctx, py: PyProgram, rs: RustProgram) -> None:
     g = cfgmod.build_rs(fn.node, fn.qual)
     rev = rs.evaluator(TIMER_RS)
     n = 0
+    flag_mti, flag_sti = _tick_flags(fn)
+    # the local that is written to ISR
+    isr_vars = {expr_text(c["args"][1]) for c in walk(fn.body) if rs_is_mcall(c, "write_internal_byte") and len(c["args"]) == 2 and c["args"][1].get("k") == "path"}
     for a in walk(fn.body):
-        if a.get("k") == "opassign" and a["op"] == "|" and expr_text(a["l"]) == "new_isr":
+        if a.get("k") == "opassign" and a["op"] == "|" and expr_text(a["l"]) in isr_vars:
             node = g.node_of(a)
             gs = [expr_text(x) for x, pol, _o in g.guards_of(node) if isinstance(x, dict) and pol]
             val = rev.eval(a["r"])
-            which = "MTI" if "fired_mti" in gs and "fired_sti" not in gs[-1:] else None
             last = gs[-1] if gs else ""
-            which = {"fired_mti": "MTI", "fired_sti": "STI"}.get(last)
+            which = {flag_mti: "MTI", flag_sti: "STI"}.get(last)
             n += 1
             if which is None or isr[which] != val:
-                ctx.violation("C13.3/isr-bit", key_of(fn.file, fn.qual, f"new_isr |= {val:#x}"), f"ISR bit {val:#x} is set under guard `{last}`; ISRFlag says MTI={isr['MTI']:#x} STI={isr['STI']:#x}", f"{fn.file}:{a['ln']}")
+                ctx.violation("C13.3/isr-bit", key_of(fn.file, fn.qual, f"ISR |= {val:#x}"), f"ISR bit {val:#x} is set under guard `{last}`; ISRFlag says MTI={isr['MTI']:#x} STI={isr['STI']:#x}", f"{fn.file}:{a['ln']}")
     # the ISR write targets ISR_OFFSET
     wr = [c for c in walk(fn.body) if rs_is_mcall(c, "write_internal_byte", "memory")]
     for c in wr:
